@@ -14,7 +14,7 @@ from verif.common import Ctx, Outcome, Witness
 DECIDING = [
     "CONST[ACTIVE]", "CONST[5]", "CONST[-3]", "CONST[1.5]", "CONST[true]", "CONST[false]", "CONST[null]", 'CONST["a b"]', 'CONST["q\\"uote"]', 'CONST["back\\\\slash"]', 'CONST["é"]', 'CONST[""]',
     'CONST["vs"]', 'CONST["#tag"]', 'CONST["a,b"]', 'CONST["[x]"]', 'CONST["x//y"]', 'CONST["007"]', 'CONST["true"]', 'CONST["A->B"]', 'CONST["line\\nbreak"]', 'CONST["tab\\there"]', "CONST[A-B]", "CONST[a.b]", "CONST[NAME<q>]",
-    "ENUM[A,B]", "ENUM[ACTIVE,ACTIVATING,DONE]", "ENUM[5,6]", 'ENUM["a b",c]', 'ENUM["q\\"x",B]', "ENUM[A]", "ENUM[é,日本]", "ENUM[true,false]", "ENUM[null,x]", "ENUM[vs,x]", 'ENUM["#t",z]', 'ENUM["x//y",z]', "ENUM[A-B,c]", 'ENUM["1.0",x]', 'ENUM["",x]', "ENUM[a.b,c/d]", 'ENUM["A→B",x]',
+    "ENUM[A,B]", "ENUM[ACTIVE,ACTIVATING,DONE]", "ENUM[DRAFT,DRAFT_REVIEW,DONE]", "ENUM[A,AB,ABC]", "ENUM[GET,GETALL,PUT]", "ENUM[A,A]", "ENUM[1,10,100]", "ENUM[5,6]", 'ENUM["a b",c]', 'ENUM["q\\"x",B]', "ENUM[A]", "ENUM[é,日本]", "ENUM[true,false]", "ENUM[null,x]", "ENUM[vs,x]", 'ENUM["#t",z]', 'ENUM["x//y",z]', "ENUM[A-B,c]", 'ENUM["1.0",x]', 'ENUM["",x]', "ENUM[a.b,c/d]", 'ENUM["A→B",x]',
     "TYPE[BOOLEAN]", "TYPE[NUMBER]", "DATE", "ISO8601",
 ]
 WRAP = [[], ["REQ"], ["OPT"]]
